@@ -106,6 +106,9 @@ pub struct ArenaRt {
     /// children adopted while marking was in progress, in the running cycle / the one before
     pub adopted_cur: BTreeSet<Id>,
     pub adopted_prev: BTreeSet<Id>,
+    /// weak targets adopted while marking was in progress, in the running cycle / the one before
+    pub adopted_weak_cur: BTreeSet<Id>,
+    pub adopted_weak_prev: BTreeSet<Id>,
     /// layout-family leaves with an exotic layout that have survived a full cycle (C17 evidence)
     pub exotic_survivors: BTreeSet<Id>,
 }
@@ -140,6 +143,8 @@ impl Default for ArenaRt {
             adopted_cur: BTreeSet::new(),
             adopted_prev: BTreeSet::new(),
             exotic_survivors: BTreeSet::new(),
+            adopted_weak_cur: BTreeSet::new(),
+            adopted_weak_prev: BTreeSet::new(),
         }
     }
 }
@@ -525,6 +530,10 @@ impl World {
         let evs = seam::drain_events();
         let mut sigf = 0u64;
         for e in &evs {
+            if e.kind == EvKind::BadPointer {
+                self.violate_with("C04.layout", &["C17.layout"], format!("a pointer the allocator never handed out was released (as size {}, align {}) from inside the crate: the block it belongs to is never returned", e.size, e.align));
+                continue;
+            }
             let b = seam::block(e.block);
             let owner = if b.owner != 0 { Some(b.owner - 1) } else { None };
             match e.kind {
@@ -544,7 +553,12 @@ impl World {
                                 self.violate_lost("C01.free-reachable", oid, format!("Gc block of {oid} released while strongly reachable"));
                             }
                             if weak_protect.contains(&oid) {
-                                self.violate("C05.shell-released", format!("block of {oid} released while a reachable weak pointer still refers to it"));
+                                // a weak pointer adopted through a barrier path while marking was in
+                                // progress must keep its target queryable (C06)
+                                let rt = &self.rt[o.arena as usize];
+                                let adopted = rt.adopted_weak_cur.contains(&oid) || rt.adopted_weak_prev.contains(&oid);
+                                let aliases: &[&str] = if adopted { &["C06.weak-unqueryable"] } else { &[] };
+                                self.violate_with("C05.shell-released", aliases, format!("block of {oid} released while a reachable weak pointer still refers to it"));
                             }
                         }
                         seam::CTX_ARENA_DROP => {}
@@ -567,8 +581,9 @@ impl World {
                 EvKind::DoubleFree => {
                     self.violate("C04.double-free", format!("block of {:?} released twice", owner));
                 }
+                EvKind::BadPointer => {}
                 EvKind::BadLayout => {
-                    self.violate("C04.layout", format!("block of {:?} requested as (size {}, align {}) released as (size {}, align {})", owner, b.size, b.align, e.size, e.align));
+                    self.violate_with("C04.layout", &["C17.layout"], format!("block of {:?} requested as (size {}, align {}) released as (size {}, align {})", owner, b.size, b.align, e.size, e.align));
                 }
                 EvKind::RedZoneLo | EvKind::RedZoneHi => {
                     self.violate("C17.redzone", format!("red zone of block of {:?} overwritten ({:?})", owner, e.kind));
